@@ -360,7 +360,9 @@ theorem applyAll_conn (dn : Bool) (st : HState) (c : Bool) (h0 : st.head.connClo
     simp only at h0; subst h0; rfl
   | true =>
     simp only [if_true, applyAll_one]
-    rw [applyHeader_kind dn _ strConnection _ (by decide), kind_conn]; rfl
+    rw [applyHeader_kind dn _ strConnection _ (by decide), kind_conn]
+    have hcc : ciEq strClose strClose = true := by decide +kernel
+    simp only [hcc, if_true]
 
 theorem wfTName_valid_clean {dn : Bool} {kv : Bytes × Bytes} (h : wfTrailer dn kv = true) :
     ∀ x ∈ kv.1, x ≠ 10 ∧ x ≠ 13 ∧ x ≠ 32 ∧ x ≠ 9 := by
